@@ -23,7 +23,7 @@ import (
 // runC16Stream: CER, DWR and an application request arrive on three streams of
 // an in-memory SCTP association served by a state machine; every answer must
 // mirror its request (checkAnswer) and be written to the request's stream.
-func runC16Stream(c *ev.Case, ctx *lib.Ctx, sCER, sDWR, sApp uint16, zeroIDs, failCER, deferred, pinWriter bool) {
+func runC16Stream(c *ev.Case, ctx *lib.Ctx, sCER, sDWR, sApp uint16, zeroIDs, failCER, deferred, pinWriter, serverSide bool) {
 	sig := func(op string) ev.Sig { return ev.Sig{"op": op, "half": "stream"} }
 	settings := &sm.Settings{OriginHost: "srv.local", OriginRealm: "realm.local", VendorID: 13, ProductName: "verif",
 		HostIPAddresses: []datatype.Address{datatype.Address([]byte{192, 0, 2, 1})}}
@@ -43,10 +43,22 @@ func runC16Stream(c *ev.Case, ctx *lib.Ctx, sCER, sDWR, sApp uint16, zeroIDs, fa
 	assoc := sctpmem.New()
 	msc := diam.VerifNewSCTPConn(assoc)
 	defer diam.VerifRelease(msc)
-	conn, err := diam.NewConn(msc, "peer", machine, ctx.Parser)
-	if err != nil {
-		c.Fail(sig("setup"), nil, nil, "NewConn: %v", err)
-		return
+	// serverSide: the association is accepted by a Server that has a write timeout configured
+	var conn interface{ Close() }
+	if serverSide {
+		srv := &diam.Server{Handler: machine, Dict: ctx.Parser, WriteTimeout: time.Hour}
+		ln := memnet.NewListener()
+		go srv.Serve(ln)
+		defer ln.Close()
+		ln.Offer(msc)
+		conn = closerFunc(func() { msc.Close() })
+	} else {
+		nc, err := diam.NewConn(msc, "peer", machine, ctx.Parser)
+		if err != nil {
+			c.Fail(sig("setup"), nil, nil, "NewConn: %v", err)
+			return
+		}
+		conn = nc
 	}
 	if pinWriter {
 		// a writer stream pinned for plain Write calls: answers still belong on their request's stream
@@ -257,6 +269,10 @@ func runC16Concurrent(c *ev.Case, ctx *lib.Ctx, n, rounds int, viaRetry bool) {
 	c.Event("concurrent_answer_rounds", rounds)
 }
 
+type closerFunc func()
+
+func (f closerFunc) Close() { f() }
+
 func TestC16Stream(t *testing.T) {
 	rec := ev.Open(t, "C16")
 	defer rec.Close()
@@ -278,8 +294,8 @@ func TestC16Stream(t *testing.T) {
 		}
 		deferred := (c.I/(len(streams)*len(streams)))%2 == 1
 		failCER := c.I%11 == 0
-		c.Class("stream/cer=%d/deferred=%v/fail=%v/pinned-writer-stream=%v", a, deferred, failCER, (c.I/3)%3 == 1)
-		leak := runBubbleWD(t, rec, c, 60*time.Second, func() { runC16Stream(c, ctx, a, b, d, c.I%5 == 0, failCER, deferred, (c.I/3)%3 == 1) })
+		c.Class("stream/cer=%d/deferred=%v/fail=%v/pinned-writer-stream=%v/server-side-write-timeout=%v", a, deferred, failCER, (c.I/3)%3 == 1, (c.I/2)%4 == 3)
+		leak := runBubbleWD(t, rec, c, 60*time.Second, func() { runC16Stream(c, ctx, a, b, d, c.I%5 == 0, failCER, deferred, (c.I/3)%3 == 1, (c.I/2)%4 == 3) })
 		if leak != "" && !c.Failed() {
 			c.Fail(ev.Sig{"op": "bubble-leak"}, nil, nil, "goroutines left blocked: %s", leak)
 		}
